@@ -36,6 +36,9 @@ class GatedProcess(_FORK.Process):
     def start(self):
         super().start()
         GatedProcess.started.append(self)
+        if SCRIPT is not None and getattr(SCRIPT, 'rec', None) is not None:
+            # where, in the coordinator-level event sequence, this worker process was started
+            SCRIPT.pstarts.append((len(SCRIPT.rec.ev), self.lv_future_id))
         os.close(self.gate_r)
 
     def run(self):
@@ -87,6 +90,7 @@ class Script:
         self.killed_fids = []
         self.max_running_seen = 0
         self.violations = []
+        self.pstarts = []
         self.interrupt_hook = None
         self.executor = None
         self.forced = None          # optional: per executor wait, the task ids whose workers finish
@@ -259,7 +263,10 @@ def run_l2(case, p_kill=0.15):
     SCRIPT.expected_maxw = case['max_workers'] if case.get('max_workers') is not None else os.cpu_count()
     case = dict(case, runner='l2')
     with patched():
-        obs = S.run_case(case, backend_factory=lambda rec: S.SpyBackend(L2Backend(), rec))
+        def factory(rec):
+            SCRIPT.rec = rec
+            return S.SpyBackend(L2Backend(), rec)
+        obs = S.run_case(case, backend_factory=factory)
     script = SCRIPT
     SCRIPT = None
     return obs, script
